@@ -398,7 +398,12 @@ func (g *Gen) HistoryIO() []E {
 			d2 := ObjSet(g.jsonTypedDoc(AStr("not-a-uuid")), "x", ANum(g.smallN[1], "f"))
 			evs = append(evs, E{"op": "PutFile", "path": "inv.json", "content": []interface{}{"docs", []interface{}{d1, d2}}})
 			evs = append(evs, E{"op": "Import", "c": names[1], "path": "inv.json"})
-		case 5: // export of a missing collection
+		case 5: // a long dump with a late offender
+			big := 1030 + g.r.Intn(600)
+			evs = append(evs, E{"op": "PutFile", "path": "big.json", "content": []interface{}{"gen", big, big - 1 - g.r.Intn(5), g.pick([]string{"dup", "bad"})}},
+				E{"op": "Import", "c": "from-big", "path": "big.json", "audit": true}, E{"op": "ListCollections"})
+			fallthrough
+		case 12: // export of a missing collection
 			evs = append(evs, E{"op": "Export", "c": "never-created", "path": "x.json"})
 			// ... and an export that cannot write its file, followed by one that can: what the failed one leaves
 			// behind (in the process, not in the database) must not reach the next file
@@ -607,6 +612,11 @@ func (g *Gen) HistoryHuge() []E {
 	evs = append(evs, E{"op": "Insert", "c": c, "docs": mk(n, []string{"dup", "bad"}[g.r.Intn(2)])})
 	evs = append(evs, E{"op": "Count", "c": c, "q": []interface{}{}, "audit": true})
 	evs = append(evs, E{"op": "Insert", "c": c, "docs": mk(n, "")})
+	// a dump longer than any batch an import might be cut into, whose offending document comes late
+	big := 1100 + g.r.Intn(1500)
+	evs = append(evs, E{"op": "PutFile", "path": "big.json", "content": []interface{}{"gen", big, big - 1 - g.r.Intn(60), g.pick([]string{"dup", "bad"})}})
+	evs = append(evs, E{"op": "Import", "c": "from-big", "path": "big.json", "audit": true})
+	evs = append(evs, E{"op": "ListCollections"})
 	// a bulk update whose last result is invalid
 	evs = append(evs, E{"op": "UpdateFunc", "c": c, "q": []interface{}{[]interface{}{"sort", []interface{}{}}}, "upd": []interface{}{"set", B("_expiresAt"), AStr("soon")}})
 	evs = append(evs, E{"op": "Count", "c": c, "q": []interface{}{}, "audit": true})
